@@ -60,6 +60,7 @@ MUTANTS = {
         ('dispatch-readlink-to-statfs', S, "x if x == Opcode::Readlink as u32 => self.readlink(ctx),", "x if x == Opcode::Readlink as u32 => self.statfs(ctx),"),
         ('fsync-datasync-bit', S, "        let datasync = fsync_flags & 0x1 != 0;\n\n        match self\n            .fs\n            .fsync(", "        let datasync = fsync_flags & 0x2 != 0;\n\n        match self\n            .fs\n            .fsync("),
         ('arc-forward-swapped', 'src/api/filesystem/sync_io.rs', "            .fallocate(ctx, inode, handle, mode, offset, length)\n    }\n\n    #[allow(clippy::too_many_arguments)]\n    fn release(", "            .fallocate(ctx, inode, handle, mode, length, offset)\n    }\n\n    #[allow(clippy::too_many_arguments)]\n    fn release("),
+        ('arc-readdir-size-offset', 'src/api/filesystem/sync_io.rs', "        self.deref()\n            .readdir(ctx, inode, handle, size, offset, add_entry)", "        self.deref()\n            .readdir(ctx, inode, handle, offset as u32, size as u64, add_entry)"),
     ],
     'C03': [
         ('entry-swap-timeouts', 'src/api/filesystem/mod.rs', "            entry_valid: entry.entry_timeout.as_secs(),\n            attr_valid: entry.attr_timeout.as_secs(),", "            entry_valid: entry.attr_timeout.as_secs(),\n            attr_valid: entry.entry_timeout.as_secs(),"),
